@@ -34,6 +34,9 @@ Layer == {l \in [Paths -> AllVals \cup {Absent}] :
              \A p \in Paths : l[p] = Absent \/ l[p] \in Dom(p)}
 NoLayer == [p \in Paths |-> Absent]
 FileLayer == {l \in Layer : l["wd"] # "null"}      \* TOML cannot say None
+\* How a file layer is written carries no meaning: setting names in lower or mixed case, and a section that is
+\* declared but empty (every entry commented out) says as little as a section that is not mentioned.
+FileForms == {"plain", "mixed_case", "empty_sections"}
 
 \* packaged defaults (src/AEIC/data/default_config.toml)
 Default == [p \in Paths |-> IF p = "nox" THEN "bffm2" ELSE IF p = "wd" THEN "wdefault" ELSE "true"]
